@@ -12,9 +12,9 @@ type base struct {
 	seed int64
 }
 
-func (b *base) Level() string         { return "exploration" }
-func (b *base) Exhaustive() bool      { return false }
-func (b *base) thorough() bool        { return b.tier == "thorough" }
+func (b *base) Level() string    { return "exploration" }
+func (b *base) Exhaustive() bool { return false }
+func (b *base) thorough() bool   { return b.tier == "thorough" }
 func (b *base) pick(q, t int) int {
 	if b.tier == "thorough" {
 		return t
